@@ -3,6 +3,7 @@ mod batch;
 mod c01;
 mod c08;
 mod c10;
+mod c17;
 mod cssgen;
 mod cssmodel;
 mod common;
@@ -26,6 +27,7 @@ fn main() {
         "c08" => c08::explore(c08::Prop::C08, thorough, &out),
         "c09" => c08::explore(c08::Prop::C09, thorough, &out),
         "c10" => c10::explore(thorough, &out),
+        "c17" => c17::explore(thorough, &out),
         "replay" => {
             let engine = args.get(2).expect("engine");
             let file = args.get(3).expect("file");
@@ -35,6 +37,7 @@ fn main() {
                 "c08" => c08::replay(c08::Prop::C08, &v),
                 "c09" => c08::replay(c08::Prop::C09, &v),
                 "c10" => c10::replay(&v),
+                "c17" => c17::replay(&v),
                 _ => panic!("unknown engine"),
             };
             println!("{}", r);
